@@ -283,7 +283,15 @@ func runC12(c c12Case) (out lib.Outcome) {
 		out.Violate(lib.Keyf("C12", "hook-ran", c.Which), "dispatch hook ran for an altered %s token (%s)", c.Which, c.Mutation)
 	}
 	// bad-signature refusals are indistinguishable from one another
-	if structIntact && resp.Status >= 400 {
+	// A length-changing edit has to be re-spelled with or without padding; when
+	// the original text does not show which the server uses (no '=' and a
+	// multiple of four characters) the re-spelling may itself be what the
+	// server refuses, which is a different failure from a bad signature.
+	spellingKnown := strings.HasSuffix(orig, "=") || len(orig)%4 != 0 || len(mutRaw) == len(origRaw)
+	if !spellingKnown {
+		out.Label("respelling-ambiguous")
+	}
+	if structIntact && resp.Status >= 400 && spellingKnown {
 		refTok := c12Case{Mutation: "flip-tag", Pos: 0, Bit: 0}.mutateToken(orig, "", "")
 		rc, rcall := cursor, callTok
 		if c.Which == "cursor" {
